@@ -39,7 +39,7 @@ def slot_cases(rng, n):
     wrong kind, and — for condition blocks — both spellings of one operator with blocks that are not objects"""
     fns = [{"Ref": "P"}, {"Fn::If": ["C", "Allow", "Deny"]}, {"Fn::Sub": "${P}-x"}, {"Fn::Join": ["", ["a", {"Ref": "P"}]]}, {"Fn::FindInMap": ["M", "a", "b"]},
            {"Fn::GetAtt": ["R", "Arn"]}, {"Fn::Select": [0, ["a"]]}, {"Fn::ImportValue": "x"}, {"Condition": "C"}]
-    wrong = [None, True, 5, 1.5, [], {}, [[]], {"a": "b"}, ["a", 5], "", "text", 2**70]
+    wrong = [None, True, 5, 1.5, [], {}, [[]], {"a": "b"}, ["a", 5], "", "text", 2**70, " ", "\n", "\t ", "\u00a0", "[", "{", "-", "nul"]
     out = []
     for _ in range(n):
         v = copy.deepcopy(rng.choice(fns + wrong if rng.random() < 0.8 else wrong))
@@ -86,7 +86,7 @@ def slot_cases(rng, n):
 def damage(rng, t):
     """one hostile change somewhere in an otherwise valid template"""
     t = copy.deepcopy(t)
-    hostile = [None, True, 5, 1.5, "text", [], ["a"], {}, {"a": "b"}, [[]], {"Ref": "X"}, [{"a": 1}], "AWS::S3::Bucket", 2**70, -1]
+    hostile = [None, True, 5, 1.5, "text", [], ["a"], {}, {"a": "b"}, [[]], {"Ref": "X"}, [{"a": 1}], "AWS::S3::Bucket", 2**70, -1, " ", "\n", "\t \n", [" "], {"k": "\n"}]
     k = rng.randrange(12)
     res = t.get("Resources") or {}
     names = list(res)
